@@ -185,8 +185,18 @@ def run_unit(unit_dir, repo, work, rlimit=None):
         msg = d.get('message', '')
         if msg.startswith('aborting due to'):
             continue
-        prim = [s for s in d.get('spans', []) if s.get('is_primary')]
-        allspans = d.get('spans', [])
+        def _with_expansions(spans):
+            # a span inside a macro definition (e.g. the broker's send! macro) carries the call site in `expansion`
+            out = []
+            for sp in spans:
+                out.append(sp)
+                e = sp.get('expansion')
+                while e and e.get('span'):
+                    out.append(e['span'])
+                    e = e['span'].get('expansion')
+            return out
+        prim = _with_expansions([s for s in d.get('spans', []) if s.get('is_primary')])
+        allspans = _with_expansions(d.get('spans', []))
         line = prim[0]['line_start'] if prim else 0
         is_verdict = any(v in msg for v in VERDICT_MSGS)
         is_undec = any(v in msg for v in UNDECIDED_MSGS)
